@@ -15,9 +15,11 @@
 package meta
 
 import (
+	"bytes"
 	"context"
 	"fmt"
 	"reflect"
+	"sort"
 )
 
 var (
@@ -322,6 +324,32 @@ func (i *instance) writeField(ctx context.Context, oprot Protocol, index int) (e
 	return nil
 }
 
+// sortedMapKeys returns the keys of a map ordered by their encoding, so that
+// the same map is always written as the same bytes.
+func sortedMapKeys(ctx context.Context, kt *TypeMeta, gv reflect.Value) ([]reflect.Value, error) {
+	keys := gv.MapKeys()
+	if len(keys) < 2 {
+		return keys, nil
+	}
+	type entry struct {
+		key reflect.Value
+		enc []byte
+	}
+	es := make([]entry, len(keys))
+	for i, k := range keys {
+		var buf MemoryTransport
+		if err := write(ctx, NewBinaryProtocol(&buf), kt, k); err != nil {
+			return nil, err
+		}
+		es[i] = entry{k, append([]byte(nil), buf.Bytes()...)}
+	}
+	sort.SliceStable(es, func(i, j int) bool { return bytes.Compare(es[i].enc, es[j].enc) < 0 })
+	for i := range es {
+		keys[i] = es[i].key
+	}
+	return keys, nil
+}
+
 func write(ctx context.Context, oprot Protocol, tt *TypeMeta, gv reflect.Value) error {
 	if tt.TypeID == TTypeID_STRUCT {
 		rt := gv.Type().Elem()
@@ -358,12 +386,15 @@ func write(ctx context.Context, oprot Protocol, tt *TypeMeta, gv reflect.Value) 
 		if err := oprot.WriteMapBegin(ctx, tt.KeyType.TypeID, tt.ValueType.TypeID, gv.Len()); err != nil {
 			return err
 		}
-		iter := gv.MapRange()
-		for iter.Next() {
-			if err := write(ctx, oprot, tt.KeyType, iter.Key()); err != nil {
+		keys, err := sortedMapKeys(ctx, tt.KeyType, gv)
+		if err != nil {
+			return err
+		}
+		for _, key := range keys {
+			if err := write(ctx, oprot, tt.KeyType, key); err != nil {
 				return err
 			}
-			if err := write(ctx, oprot, tt.ValueType, iter.Value()); err != nil {
+			if err := write(ctx, oprot, tt.ValueType, gv.MapIndex(key)); err != nil {
 				return err
 			}
 		}
